@@ -450,6 +450,22 @@ func gen(r *vh.Rand, tier string, n int, emit func(vh.Case)) {
 				size = t + len(d)/2 + 12
 				continue
 			}
+			if r.Chance(1, 30) || (hash == "id" && r.Chance(1, 6)) {
+				// a hole of more than 128 bytes: sparse expansion in 4096-byte zero blocks (with an identity prefix the
+				// new leaves exceed the identity digest limit)
+				far := size + r.Range(129, 400)
+				switch r.Intn(3) {
+				case 0:
+					c.Ops = append(c.Ops, fmt.Sprintf("seek %d 0", far))
+				case 1:
+					c.Ops = append(c.Ops, fmt.Sprintf("trunc %d", far))
+				default:
+					c.Ops = append(c.Ops, fmt.Sprintf("writeat %d %s", far, data()))
+				}
+				c.Ops = append(c.Ops, "size", "getnode")
+				size = far + 40
+				continue
+			}
 			switch r.Intn(12) {
 			case 0, 1:
 				d := data()
